@@ -1213,6 +1213,32 @@ func ruleCONC4(w *World) []Ob {
 			l.bad(fid, construct, p.InstrPos(a.instr), "field "+a.ref.String()+" of an object shared by concurrently running worker instances is written by worker code, and this "+kind+" happens without the object's mutex held: data race", "access")
 		}
 	}
+	// one critical section per call: a worker-reachable function that takes the same object's lock twice
+	// lets other workers change the shared state in between
+	for fn := range ca.mi.multi {
+		var locks []*ssa.Call
+		allInstrs(fn, func(in ssa.Instruction) {
+			if c, ok := in.(*ssa.Call); ok {
+				if _, lock, ok := lockCallOn(c); ok && lock {
+					locks = append(locks, c)
+				}
+			}
+		})
+		for i, a := range locks {
+			for _, b := range locks[i+1:] {
+				oa, _, _ := lockCallOn(a)
+				ob, _, _ := lockCallOn(b)
+				if !sameVar(oa, ob) || !(reachableAfter(a, b) || reachableAfter(b, a)) {
+					continue
+				}
+				// only relevant when the object is shared between workers and carries state written by them
+				if !ca.mi.shared[oa] && !ca.mi.shared[baseObject(oa)] {
+					continue
+				}
+				l.bad(p.FuncID(fn), "single critical section per call", p.InstrPos(b), "the function acquires the same shared object's lock a second time (first at "+p.InstrPos(a)+"): state read in the second section may have been changed by another worker since the first, so one logical step is no longer atomic", "access")
+			}
+		}
+	}
 	// maps / slices reached through a shared object and modified by worker code
 	for fn := range ca.mi.multi {
 		fid := p.FuncID(fn)
